@@ -66,6 +66,20 @@ def tokenizer_methods() -> dict:
     return {m.name: m for m in cls.body if isinstance(m, ast.FunctionDef)}
 
 
+def tokenizer_class_constants() -> dict:
+    """Class-level names of Tokenizer bound to a literal (a constant table every instance reads)."""
+    cls = repo.find_class(parse_py(repo.TOKENIZER), "Tokenizer")
+    out = {}
+    for st in cls.body:
+        tgt = st.targets[0] if isinstance(st, ast.Assign) and len(st.targets) == 1 else getattr(st, "target", None)
+        if isinstance(tgt, ast.Name) and getattr(st, "value", None) is not None:
+            try:
+                out[tgt.id] = ast.literal_eval(st.value)
+            except Exception:
+                pass
+    return out
+
+
 def module_funcs() -> dict:
     mod = parse_py(repo.TOKENIZER)
     return {m.name: m for m in mod.body if isinstance(m, ast.FunctionDef)}
@@ -95,6 +109,7 @@ def new_tokenizer(stream: list, path: str = "", **flags):
     mods = module_funcs()
     prims = {}
     me = SourceSelf(methods, prims, max_steps=6000)
+    me.__dict__["_consts"] = tokenizer_class_constants()
     init = methods.get("__init__")
     if init is None:
         raise AnalysisError("Tokenizer.__init__ vanished")
